@@ -6,6 +6,7 @@ import (
 	"encoding/json"
 	"fmt"
 	"os"
+	"path/filepath"
 	"sort"
 	"sync"
 	"testing"
@@ -226,7 +227,8 @@ func DoCallDepth(rt *RecT, st Step, depth int) {
 // DoChdir changes the working directory of the process for good (a CLI test that chdirs into a fixture directory and
 // never comes back): everything that runs later in the process sees the other directory.
 func DoChdir() {
-	d, err := os.MkdirTemp("", "scn-chdir")
+	// (below the scenario's own io directory, which the harness removes: nothing is left in the system's temp directory)
+	d, err := os.MkdirTemp(filepath.Dir(os.Getenv("VERIF_SCN")), "scn-chdir")
 	if err == nil {
 		os.Chdir(d)
 	}
